@@ -1103,6 +1103,13 @@ class Interp:
     def _is_literal(self, v: T) -> bool:
         if v.op in ("const", "enum"):
             return True
+        if v.op in ("func", "cls"):
+            return True          # a table entry naming a function / class
+        if v.op == "global" and not v.args[0].startswith("evo."):
+            return True          # ... or a library function / constant
+        if v.op == "star":
+            return all(self._is_literal(x) for x in v.args
+                       if isinstance(x, T))
         if v.op in ("tuple", "list", "set"):
             return all(self._is_literal(x) for x in v.args)
         if v.op == "dict":
@@ -1235,6 +1242,18 @@ class Interp:
                         mth.qualname not in self.stack:
                     return self.inline_call(mth, {mth.params[0]: base}, frame,
                                             live, node, c)
+        # a class-level table read through the instance (self._TABLE): the
+        # class constant, as long as no instance attribute of that name is
+        # ever assigned
+        if base.op == "param" and name.isupper() or (
+                base.op == "param" and name.startswith("_") and
+                name[1:].isupper()):
+            c = self.class_of(base, frame)
+            if c is not None:
+                for k in self.prog.mro(c):
+                    if name in k.members and not isinstance(
+                            k.members[name], (ast.FunctionDef,)):
+                        return self.qual_to_term(f"{k.qualname}.{name}")
         return tm.attr(base, name)
 
     def class_of(self, t: T, frame: Frame) -> Optional[Class]:
@@ -1327,10 +1346,10 @@ class Interp:
             i = tm.const_val(idx)
             if -len(b.args) <= i < len(b.args):
                 return b.args[i]
-        if b.op == "dict" and idx.op in ("const", "enum"):
-            for k, v in b.args:
-                if k == idx:
-                    return v
+        if b.op == "dict" and self.unname(idx).op in ("const", "enum"):
+            hit = _dict_lookup(b, self.unname(idx), self.unname)
+            if hit is not None and hit is not _MISSING:
+                return hit
         if b.op == "const" and isinstance(b.args[1], str) and \
                 tm.is_const(idx) and isinstance(tm.const_val(idx), int):
             try:
@@ -1650,6 +1669,16 @@ class Interp:
                 len(args) == 1 and not kwargs and args[0].op != "star":
             # np.shape(a) is a.shape etc.: one term for both spellings
             return tm.attr(args[0], _ATTR_ALIASES[fn.args[0]])
+        if fn.op == "attr" and fn.args[1] == "get" and not kwargs and \
+                len(args) in (1, 2) and \
+                self.unname(fn.args[0]).op == "dict" and \
+                self.unname(args[0]).op in ("const", "enum"):
+            # TABLE.get(key[, default]) on a completely known table
+            hit = _dict_lookup(fn.args[0], self.unname(args[0]), self.unname)
+            if hit is _MISSING:
+                return args[1] if len(args) == 2 else NONE
+            if hit is not None:
+                return hit
         if fn.op == "global" and fn.args[0] == "builtins.getattr" and \
                 not kwargs and len(args) in (2, 3) and \
                 tm.is_const(args[1]) and \
@@ -2023,6 +2052,33 @@ def _plain_fields(fmt_str: str) -> Optional[List[str]]:
     if any("{" in p or "}" in p for p in pieces):
         return None
     return pieces
+
+
+_MISSING = object()
+
+
+def _dict_lookup(d: T, key: T, unname=lambda v: v):
+    """value stored under a closed key in a dict display (merged displays
+    included): the value term, _MISSING if the key is certainly absent, None
+    if the display is not completely known"""
+    d = unname(d)
+    if d.op != "dict":
+        return None
+    found = _MISSING
+    for k, v in d.args:
+        if isinstance(k, T) and k.op == "star":
+            inner = _dict_lookup(v, key, unname)
+            if inner is None:
+                return None
+            if inner is not _MISSING:
+                found = inner
+            continue
+        ku = unname(k)
+        if ku.op not in ("const", "enum"):
+            return None
+        if _canon(ku, unname) == _canon(key, unname):
+            found = v
+    return found
 
 
 def _dict_keys(d: T, unname=lambda v: v) -> Optional[List[T]]:
